@@ -172,3 +172,32 @@ func VH_C12_CancelWait() {
 	vh.Cover("C12.cancel-end")
 	_ = config.StoreDir
 }
+
+// VH_C12_AfterAny: whatever a single request did - every error path included - it gave
+// back what it held: afterwards a collection of the repository, a plain request and
+// Close all complete (a leaked repository reference or lock leaves one of them blocked
+// forever, which the engine reports as a deadlock).
+func VH_C12_AfterAny() {
+	vhReset()
+	conf := vhConf(vhStore("dir"))
+	conf.Storage.GC.Frequency = time.Second
+	w := vhNewWorld(conf, 2)
+	vh.Sched()
+	r := w.vhAnyRequest(vh.Param("REPOS", 3), vh.Param("METHODS", 8))
+	vh.Tag("route", r.route)
+	vh.Tag("method", r.method)
+	rec := w.do(r)
+	vh.Assert(!rec.Panicked, "C12.nopanic")
+	vhTick()
+	for _, repo := range []string{"a", "b"} {
+		g := vhDo(w.s, "GET", "/v2/"+repo+"/tags/list", nil, nil, nil)
+		vh.Assert(!g.Panicked && g.Status() < 500, "C12.request-after-any-request")
+	}
+	vhTick()
+	// Close returns (its error value is not C12's subject)
+	if err := w.s.Close(); err != nil {
+		vh.Note("Close: " + err.Error())
+		vh.Cover("C12.close-returned-error")
+	}
+	vh.Cover("C12.after-any-end")
+}
